@@ -60,6 +60,8 @@ def eval_pair(case):
         free = FreeCapacity(total=a, allocated=b)
         free_none = FreeCapacity(total=a, allocated=None)
         refit = free.free + b
+        dd = d + d                      # operands and result may carry negative fields
+        zero = d + (b - a)
     except Exception as e:
         return {'v': [(f'raises/arith/{type(e).__name__}', f'arithmetic raised {e!r} for a={A} b={B}')],
                 'nt': (a_v, b_v), 'out': 'raise'}
@@ -72,6 +74,10 @@ def eval_pair(case):
             bad('sub-fieldwise', f, f'(a-b).{f}={fd(d)[f]} expected {A[f] - B[f]}')
         if fd(back)[f] != A[f]:
             bad('add-sub-inverse', f, f'((a+b)-b).{f}={fd(back)[f]} expected {A[f]}')
+        if fd(dd)[f] != 2 * (A[f] - B[f]):
+            bad('add-fieldwise-negative-operands', f, f'((a-b)+(a-b)).{f}={fd(dd)[f]} expected {2 * (A[f] - B[f])}')
+        if fd(zero)[f] != 0:
+            bad('add-fieldwise-negative-operands', f, f'((a-b)+(b-a)).{f}={fd(zero)[f]} expected 0')
         if getattr(free, f) != A[f] - B[f]:
             bad('free-is-total-minus-allocated', f, f'free.{f}={getattr(free, f)} expected {A[f] - B[f]}')
         if fd(refit)[f] != A[f]:
